@@ -23,6 +23,7 @@ import (
 	"github.com/go-openapi/runtime/middleware/untyped"
 	"github.com/go-openapi/runtime/security"
 
+	"verif/gen"
 	"verif/mon"
 	"verif/props/c07/accept"
 )
@@ -35,7 +36,12 @@ func init() {
 			"application/json / another type / none; the default listed in produces or not; one declared 2xx code of {200,201,202,204} - or, for a quarter of the operations, several of them (200+204, 200+201+202, ...) - plus non-2xx/default responses, or default-only; methods GET POST PUT DELETE PATCH HEAD; " +
 			"basic-auth operations with realm set/unset, optionally an API authorizer that denies chosen requests (errors.Error 403 or a plain error); operations with a required query parameter that a request may omit; half of the POST/PUT/PATCH operations take a JSON body: requests with an admitted body, a non-admitted type (415) or an unparsable Content-Type (400); the basic scheme registered through BasicAuth/BasicAuthRealm or their Ctx flavours, the credential callback refusing with a go-openapi 401, another errors.Error (403, 429) or a plain error; one API in six registers producers under bare media types only and skips api.Validate()) served by the real RoutesHandler over an untyped.API whose every producer is tagged and whose registrations pass api.Validate(); " +
 			"requests = Accept headers from C07's grammar generator x handler outcomes {value, nil, custom Responder, a Responder that also implements error (returned as the result), middleware.Error(code<=0|4xx|5xx, data, headers), NotImplemented, errors.Error, plain error, composite error} " +
-			"x credentials {none, wrong, malformed, right} x unknown path / wrong method. Oracle from the statement; the offers are computed from the DECLARED produces (operation, else spec) plus the API default, the observed MatchedRoute.Produces must be that set and only lends its order. " +
+			"x credentials {none, wrong, malformed, right} x unknown path / wrong method. " +
+			"Round 3: a quarter of the requests are served by a gen.GeneratedAPI (a middleware.RoutableAPI running RouteInfo, Authorize, BindValidRequest, handler, Respond) on a context made with middleware.NewRoutableContext; " +
+			"one request in 25 is preceded by the application assigning a new function to api.ServeError (contexts and handlers exist by then): from then on only that function is the API's error responder; " +
+			"one request in 12 is rendered outside a matched operation: Context.Respond with route nil or with a hand-made MatchedRoute without Operation (1-3 produces entries of the description, value / nil / error data, GET POST DELETE HEAD) and Context.NotFound; " +
+			"one API in 8 declares a media type for which no producer is registered (the library's fall-back to the default producer); one default type in 10 is written with parameters; [{key},{basic}] security alternatives; " +
+			"a request for a declared operation that reaches the Builder middleware or the generated handler without a MatchedRoute is a violation. Oracle from the statement; the offers are computed from the DECLARED produces (operation, else spec) plus the API default, the observed MatchedRoute.Produces must be that set and only lends its order. " +
 			"non-trivial = request that reached the stage it was meant for; distinct by (entry shape of the negotiated type, Accept flavour, outcome kind, method, declared code, stage)",
 		Assumptions: []string{
 			"negotiated type = C07's reference selection over the statement's offer list (declared produces without the API default in the order the router holds them, default last); the router's list must hold exactly the declared types plus the default; when header.ParseAccept already fails C07's oracle on the header, the announced Content-Type is taken as negotiated and only the remaining clauses are judged",
@@ -47,6 +53,10 @@ func init() {
 			"upper-case entries in produces are not generated",
 			"an operation that declares several 2xx codes: its declared success status is the lowest of them (the rule spec.Operation.SuccessResponse documents), for every response alike",
 			"a request that is both unacceptable (406) and lacks a required parameter may be refused with either error; a denied authorization is judged like a failed authentication (before the 406 gate)",
+			"the API's error responder is the function that api.ServeError holds when the error is served (the field is exported and documented as the hook): after the application has reassigned it, an invocation of an earlier function is a violation",
+			"a response rendered without a matched operation (route-less Respond, NotFound) has no declared status: its status is not judged; its offers are the produces handed in (NotFound: the API default alone) without the API default, the default last; a value when nothing is acceptable is not judged there (no 406 gate ran)",
+			"a negotiated type for which no producer is registered (declared_types_without_producer; api.Validate() would refuse the configuration): who writes the body, or a 'can't find a producer' panic, is not judged; judged: nothing is produced twice, a producer that ran got the handler's value and the body is its output; HEAD/204 and errors as everywhere",
+			"TRIAGE-PENDING: a Responder handed to a route-less Respond (nil-pointer panic on the unchanged tree, /tmp/alarms3/C08-responder-without-route.json) is not generated (var responderWithoutRoute)",
 		},
 		MinNontrivial: 150,
 		Run:           run,
@@ -70,6 +80,20 @@ type APIDesc struct {
 	// BareOnly: producers are registered under the bare media types only (no key with parameters) and
 	// api.Validate() is not called (it demands a registration under every spelling the spec uses)
 	BareOnly bool `json:"bare_keys_only,omitempty"`
+	// Unregistered: bare media types that operations declare in produces but for which NO producer is registered
+	// (never the API default; api.Validate() is not called): the statement's "producer registered for that media
+	// type" does not exist there
+	Unregistered []string `json:"declared_types_without_producer,omitempty"`
+}
+
+func (d *APIDesc) unregistered(t string) bool {
+	n := strings.ToLower(accept.NormOffer(t))
+	for _, u := range d.Unregistered {
+		if u == n {
+			return true
+		}
+	}
+	return false
 }
 
 // OpDesc is one operation at /op<i>.
@@ -80,6 +104,7 @@ type OpDesc struct {
 	Default  bool     `json:"default_response,omitempty"`
 	Secured  bool     `json:"secured,omitempty"`
 	Alt      bool     `json:"alt_key_after_basic,omitempty"`  // secured by [{basic},{key}]: basic is not the last alternative
+	KeyFirst bool     `json:"alt_key_before_basic,omitempty"` // with Alt: secured by [{key},{basic}]: basic is not the first alternative
 	ReqParam bool     `json:"required_query_param,omitempty"` // declares the required query parameter "need"
 	// BodyParam: declares an optional body parameter and consumes application/json (POST, PUT, PATCH operations)
 	BodyParam bool `json:"body_param,omitempty"`
@@ -113,8 +138,23 @@ type ReqDesc struct {
 	Accept  []mon.Q `json:"accept"`
 	Flavour string  `json:"flavour,omitempty"`
 	Auth    string  `json:"auth,omitempty"` // none wrong malformed right
-	Flow    string  `json:"flow,omitempty"` // "" the reflective (untyped) operation handler; "generated": the sequence a generated server's operation runs (RouteInfo, Authorize, BindValidRequest, Respond)
+	// Flow: "" the reflective (untyped) operation handler; "generated": the sequence a generated server's operation runs
+	// (RouteInfo, Authorize, BindValidRequest, Respond) on the NewContext context; "generated-routable": the same sequence
+	// run by a middleware.RoutableAPI (gen.GeneratedAPI) on a context made with middleware.NewRoutableContext, the
+	// constructor generated servers use. For the direct entries (Entry != "") the flow only selects the context.
+	Flow    string  `json:"flow,omitempty"`
 	Outcome Outcome `json:"outcome"`
+	// Entry: "" the request goes through the router; otherwise the response is rendered outside a matched operation,
+	// the way middleware that is not an operation of the description uses the context: "respond-without-route"
+	// Context.Respond(rw, r, Produces, nil, data), "respond-route-without-operation" the same with a hand-made
+	// MatchedRoute that carries no Operation, "not-found" Context.NotFound(rw, r)
+	Entry string `json:"entry,omitempty"`
+	// Method, Produces: the request method and the produces list handed to Respond by a direct entry
+	Method   string   `json:"method,omitempty"`
+	Produces []string `json:"respond_produces,omitempty"`
+	// SwapResponder: just before this request is served (the contexts and handlers exist by then) the application
+	// assigns a new function to api.ServeError: from then on THAT function is the API's error responder
+	SwapResponder bool `json:"error_responder_replaced,omitempty"`
 	// OmitParam: the request leaves out the required query parameter of its operation (if it declares one)
 	OmitParam bool `json:"omit_required_param,omitempty"`
 	// Deny: the API authorizer (if registered, and reached) refuses this request: "api-error" with an errors.Error 403, "plain-error" with a plain error
@@ -169,6 +209,9 @@ func (o *OpDesc) success() (int, bool) {
 func (d *APIDesc) regKeys() []string {
 	set := map[string]bool{}
 	add := func(t string) {
+		if d.unregistered(t) {
+			return // declared, but nobody registers a producer for it
+		}
 		if !d.BareOnly {
 			set[t] = true
 		}
@@ -252,6 +295,9 @@ func (d *APIDesc) swagger() []byte {
 			o["security"] = []interface{}{map[string]interface{}{"basic": []string{}}}
 			if op.Alt {
 				o["security"] = []interface{}{map[string]interface{}{"basic": []string{}}, map[string]interface{}{"key": []string{}}}
+				if op.KeyFirst {
+					o["security"] = []interface{}{map[string]interface{}{"key": []string{}}, map[string]interface{}{"basic": []string{}}}
+				}
 			}
 		}
 		paths[fmt.Sprintf("/op%d", i)] = map[string]interface{}{strings.ToLower(op.Method): o}
@@ -304,6 +350,7 @@ type prodCall struct {
 type errCall struct {
 	err     error
 	ctEntry string
+	gen     int // which of the successively installed error responders was invoked (built.respGen when it was installed)
 }
 
 type observation struct {
@@ -322,6 +369,8 @@ type observation struct {
 	denyErr     error // the error the authorizer returned
 	refuseErr   error // the error the credential callback refused the credentials with
 	bindErr     error // the error the generated-flow binder returned
+	// noRouteInHandler: the operation handler of the generated-routable flow got a request without a MatchedRoute
+	noRouteInHandler bool
 }
 
 type built struct {
@@ -330,6 +379,27 @@ type built struct {
 	api  *untyped.API
 	obs  *observation
 	cur  *ReqDesc
+	// respGen counts the replacements of api.ServeError since the API was built: the function installed last is
+	// the API's error responder
+	respGen int
+	// the handler and context of the generated-routable flow, shared by the API's served sets
+	rh   http.Handler
+	rctx *middleware.Context
+}
+
+// installResponder assigns a recording error responder to api.ServeError; it remembers which generation it is.
+func (b *built) installResponder(api *untyped.API) {
+	gen := b.respGen
+	api.ServeError = func(rw http.ResponseWriter, r *http.Request, err error) {
+		b.obs.serveErr = append(b.obs.serveErr, errCall{err, rw.Header().Get("Content-Type"), gen})
+		errors.ServeError(rw, r, err)
+	}
+}
+
+// swapResponder is the application replacing the error responder of a live API.
+func (b *built) swapResponder() {
+	b.respGen++
+	b.installResponder(b.api)
 }
 
 type tagProducer struct {
@@ -457,11 +527,8 @@ func build(d *APIDesc) (*built, error) {
 		}))
 	}
 	api.RegisterOperation("get", "/catalogue", runtime.OperationHandlerFunc(func(interface{}) (interface{}, error) { return "catalogue", nil }))
-	api.ServeError = func(rw http.ResponseWriter, r *http.Request, err error) {
-		b.obs.serveErr = append(b.obs.serveErr, errCall{err, rw.Header().Get("Content-Type")})
-		errors.ServeError(rw, r, err)
-	}
-	if !d.BareOnly {
+	b.installResponder(api)
+	if !d.BareOnly && len(d.Unregistered) == 0 {
 		if err := api.Validate(); err != nil {
 			return nil, fmt.Errorf("validate: %w", err)
 		}
@@ -509,9 +576,40 @@ func (b *built) handle() (interface{}, error) {
 	return res, err
 }
 
-func (b *built) handler() (http.Handler, *middleware.Context) {
-	ctx := middleware.NewContext(b.doc, b.api, nil)
-	h := ctx.RoutesHandler(func(next http.Handler) http.Handler {
+// served is what serves the requests of one built API: a context made with NewContext over the untyped API
+// (reflective handlers; the "generated" flow is run from its Builder middleware) and a context made with
+// NewRoutableContext over a gen.GeneratedAPI (the "generated-routable" flow), each behind the real RoutesHandler.
+type served struct {
+	b    *built
+	h    http.Handler
+	ctx  *middleware.Context
+	rh   http.Handler
+	rctx *middleware.Context
+}
+
+func (s *served) ServeHTTP(w http.ResponseWriter, r *http.Request) {
+	if s.b.cur != nil && s.b.cur.Flow == flowRoutable {
+		s.rh.ServeHTTP(w, r)
+		return
+	}
+	s.h.ServeHTTP(w, r)
+}
+
+// contextFor is the context that serves a request of that flow.
+func (s *served) contextFor(flow string) *middleware.Context {
+	if flow == flowRoutable {
+		return s.rctx
+	}
+	return s.ctx
+}
+
+const flowRoutable = "generated-routable"
+
+func (b *built) handler() *served {
+	s := &served{b: b}
+	s.ctx = middleware.NewContext(b.doc, b.api, nil)
+	ctx := s.ctx
+	s.h = ctx.RoutesHandler(func(next http.Handler) http.Handler {
 		return http.HandlerFunc(func(w http.ResponseWriter, r *http.Request) {
 			if mr := middleware.MatchedRouteFrom(r); mr != nil {
 				b.obs.routed = true
@@ -524,7 +622,49 @@ func (b *built) handler() (http.Handler, *middleware.Context) {
 			next.ServeHTTP(w, r)
 		})
 	})
-	return h, ctx
+	if b.rh == nil {
+		b.rh, b.rctx = b.routable() // one per built API (a replay that looks for a route order resets it)
+	}
+	s.rh, s.rctx = b.rh, b.rctx
+	return s
+}
+
+// routable builds the API the way a generated server does: a middleware.RoutableAPI whose operation handlers run
+// RouteInfo, Authorize, BindValidRequest, the handler and Respond, on a context made with NewRoutableContext.
+func (b *built) routable() (http.Handler, *middleware.Context) {
+	g := gen.NewGeneratedAPI(b.api)
+	for i, op := range b.desc.Ops {
+		g.Operation(op.Method, fmt.Sprintf("/op%d", i), gen.GeneratedOp{
+			NewBinder:  func() middleware.RequestBinder { return genBinder{b} },
+			Authorized: op.Secured,
+			Handle: func(r *http.Request, _ middleware.RequestBinder, _ interface{}) interface{} {
+				if middleware.MatchedRouteFrom(r) == nil {
+					b.obs.noRouteInHandler = true
+				}
+				res, err := b.handle()
+				if err != nil {
+					return err
+				}
+				return res
+			},
+		})
+	}
+	g.Operation("get", "/catalogue", gen.GeneratedOp{
+		NewBinder: func() middleware.RequestBinder { return genBinder{b} },
+		Handle:    func(*http.Request, middleware.RequestBinder, interface{}) interface{} { return "catalogue" },
+	})
+	rctx := middleware.NewRoutableContext(b.doc, g, nil)
+	g.SetContext(rctx)
+	rh := rctx.RoutesHandler(func(next http.Handler) http.Handler {
+		return http.HandlerFunc(func(w http.ResponseWriter, r *http.Request) {
+			if mr := middleware.MatchedRouteFrom(r); mr != nil {
+				b.obs.routed = true
+				b.obs.produces = append([]string(nil), mr.Produces...)
+			}
+			next.ServeHTTP(w, r)
+		})
+	})
+	return rh, rctx
 }
 
 // genBinder is the parameter binding of a generated operation: it checks the required query parameter
@@ -687,7 +827,10 @@ func errCode(err error) int {
 	return 0
 }
 
-func runCaseOn(m *mon.M, c *Case, b *built, h http.Handler) (violated bool) {
+func runCaseOn(m *mon.M, c *Case, b *built, h *served) (violated bool) {
+	if c.Req.Entry != "" {
+		return runDirect(m, c, b, h)
+	}
 	d := b.desc
 	rq := &c.Req
 	op := d.Ops[rq.Op]
@@ -695,6 +838,9 @@ func runCaseOn(m *mon.M, c *Case, b *built, h http.Handler) (violated bool) {
 	m.Eval(1)
 	*b.obs = observation{}
 	b.cur = rq
+	if rq.SwapResponder {
+		b.swapResponder() // the contexts and handlers exist: the new function is the API's error responder from now on
+	}
 	method, path := op.Method, fmt.Sprintf("/op%d", rq.Op)
 	switch rq.Route {
 	case "unknown-path":
@@ -738,9 +884,11 @@ func runCaseOn(m *mon.M, c *Case, b *built, h http.Handler) (violated bool) {
 	}
 	rec := httptest.NewRecorder()
 	minimal := func() *Case {
-		dd := &APIDesc{DefaultProduces: d.DefaultProduces, Global: d.Global, Ops: []OpDesc{op}, Realm: d.Realm, Authorizer: d.Authorizer, CtxAuth: d.CtxAuth, BareOnly: d.BareOnly}
+		dd := &APIDesc{DefaultProduces: d.DefaultProduces, Global: d.Global, Ops: []OpDesc{op}, Realm: d.Realm, Authorizer: d.Authorizer, CtxAuth: d.CtxAuth, BareOnly: d.BareOnly, Unregistered: d.Unregistered}
 		r2 := *rq
 		r2.Op = 0
+		// the responder was replaced by an earlier request of this API: the case says so itself, so that it replays alone
+		r2.SwapResponder = rq.SwapResponder || b.respGen > 0
 		cs := &Case{API: dd, Req: r2, WantOrder: b.obs.produces}
 		if multi {
 			cs.Repeat = 200 // which of the declared 2xx codes comes out may depend on a map order
@@ -789,6 +937,8 @@ func runCaseOn(m *mon.M, c *Case, b *built, h http.Handler) (violated bool) {
 		switch {
 		case obs.ran != 0:
 			violate("handler-ran/"+rq.Route, fmt.Sprintf("%s %s ran the operation handler", method, path))
+		case staleResponder(&obs, b.respGen):
+			violate("error-routed-to-a-replaced-error-responder/"+rq.Route, fmt.Sprintf("%s %s: api.ServeError was reassigned after the context was built (%d times); the error went to a function that is no longer the API's error responder (status %d)", method, path, b.respGen, status))
 		case len(obs.serveErr) != 1:
 			violate("error-not-routed-to-error-responder/"+rq.Route, fmt.Sprintf("%s %s: error responder invoked %d times, status %d", method, path, len(obs.serveErr), status))
 		case errCode(obs.serveErr[0].err) != want:
@@ -820,7 +970,17 @@ func runCaseOn(m *mon.M, c *Case, b *built, h http.Handler) (violated bool) {
 			violate("panic/before-routing", fmt.Sprintf("%v\n%s", pv, st))
 			return violated
 		}
-		m.Class("not-routed(harness)")
+		// a request for a declared path and method: the Builder middleware (installed through RoutesHandler) must get
+		// the request that carries the matched route
+		fl := rq.Flow
+		if fl == "" {
+			fl = "reflective"
+		}
+		violate("builder-did-not-see-matched-route/"+fl, fmt.Sprintf("%s %s is a declared operation, but the handler installed through the Builder got a request without a MatchedRoute (status %d, handler ran %d times)", method, path, status, obs.ran))
+		return violated
+	}
+	if obs.noRouteInHandler {
+		violate("handler-did-not-see-matched-route/"+rq.Flow, fmt.Sprintf("%s %s is a declared operation, but its handler got a request without a MatchedRoute after Context.RouteInfo", method, path))
 		return violated
 	}
 	m.SetAdd("observed-produces-orders", strings.Join(obs.produces, " | "))
@@ -904,6 +1064,11 @@ func runCaseOn(m *mon.M, c *Case, b *built, h http.Handler) (violated bool) {
 		if stage != "handler" {
 			oc = "stage-" + stage
 		}
+		if w, ok := wantCT(); cls == "no-producer-found" && len(d.Unregistered) > 0 && (!ok || w == "" || d.unregistered(w)) {
+			// nobody registered a producer for the negotiated type: the statement does not say what is written then
+			m.Class("no-producer-registered:panic(not judged)")
+			return violated
+		}
 		violate(fmt.Sprintf("panic-%s/%s/%s", cls, oc, shape), fmt.Sprintf("%s %s Accept=%q produces=%q default=%q outcome=%s: panic: %v\n%s", method, path, lines, obs.produces, d.DefaultProduces, rq.Outcome.Kind, pv, st))
 		return violated
 	}
@@ -923,6 +1088,9 @@ func runCaseOn(m *mon.M, c *Case, b *built, h http.Handler) (violated bool) {
 			return got == wantCode
 		}
 		switch {
+		case staleResponder(&obs, b.respGen):
+			violate("error-routed-to-a-replaced-error-responder/"+kind, fmt.Sprintf("%s: api.ServeError was reassigned after the context was built (%d times); the error went to a function that is no longer the API's error responder (status %d)", ctx, b.respGen, status))
+			return false
 		case len(obs.serveErr) != 1:
 			violate("error-not-routed-to-error-responder/"+kind, fmt.Sprintf("%s: error responder invoked %d times (status %d)", ctx, len(obs.serveErr), status))
 			return false
@@ -1040,7 +1208,7 @@ func runCaseOn(m *mon.M, c *Case, b *built, h http.Handler) (violated bool) {
 		if stage == "406-or-422" {
 			want = codeValidationOr406
 		}
-		if rq.Flow == "generated" && obs.bindErr != nil {
+		if rq.Flow != "" && obs.bindErr != nil {
 			// the generated-flow binder's own error is what BindValidRequest returns
 			checkErrorRouted("missing-required-parameter", obs.bindErr, 0)
 		} else {
@@ -1055,7 +1223,9 @@ func runCaseOn(m *mon.M, c *Case, b *built, h http.Handler) (violated bool) {
 		checkErrorRouted("not-acceptable", nil, http.StatusNotAcceptable)
 		return violated
 	case "unknown-early":
-		if len(obs.serveErr) != 1 {
+		if staleResponder(&obs, b.respGen) {
+			violate("error-routed-to-a-replaced-error-responder/early-stage", fmt.Sprintf("%s: api.ServeError was reassigned after the context was built; the error went to a function that is no longer the API's error responder (status %d)", ctx, status))
+		} else if len(obs.serveErr) != 1 {
 			violate("error-not-routed-to-error-responder/early-stage", fmt.Sprintf("%s: handler did not run, error responder invoked %d times, status %d", ctx, len(obs.serveErr), status))
 		}
 		return violated
@@ -1070,6 +1240,29 @@ func runCaseOn(m *mon.M, c *Case, b *built, h http.Handler) (violated bool) {
 		return violated
 	}
 	m.Class("outcome:" + rq.Outcome.Kind)
+	if len(d.Unregistered) > 0 {
+		// is the negotiated type one that nobody registered a producer for? Then "the producer registered for that
+		// media type" does not exist and the statement does not say who writes the body (or whether one is written)
+		noProd := false
+		if w, ok := wantCT(); ok {
+			noProd = d.unregistered(w)
+		} else if rq.Outcome.Kind == "responder" || rq.Outcome.Kind == "responder-error" {
+			noProd = d.unregistered(obs.respCT)
+		} else {
+			noProd = d.unregistered(ct)
+		}
+		bodyDue := true
+		switch rq.Outcome.Kind {
+		case "value", "nil":
+			bodyDue = !hasSucc || (op.Method != http.MethodHead && succ != http.StatusNoContent)
+		case "api-error", "plain-error", "composite-error":
+			bodyDue = false // the error responder needs no producer: judged as everywhere
+		}
+		if noProd && bodyDue {
+			judgeNoProducer(m, &obs, rq, d, body, ctx, violate)
+			return violated
+		}
+	}
 	// the type announced, and the one the statement negotiates
 	announced := ct
 	if w, ok := wantCT(); ok {
@@ -1187,6 +1380,310 @@ func runCaseOn(m *mon.M, c *Case, b *built, h http.Handler) (violated bool) {
 		checkErrorRouted(rq.Outcome.Kind, obs.returnedErr, 0)
 	}
 	return violated
+}
+
+// negotiate is the reference negotiation of one request over the statement's offer list (C07's oracle); ok is false
+// when it cannot be told (a header outside the strict grammar's judged zone, or one that header.ParseAccept
+// already mis-parses by C07's oracle).
+func negotiate(m *mon.M, lines []string, offers []string) (neg accept.Pick, ok bool) {
+	p := accept.ParseStrict(lines, true)
+	ok = p.Judged && accept.CleanOffers(offers, true)
+	if ok && p.Present {
+		var specs []header.AcceptSpec
+		mon.Catch(func() { specs = header.ParseAccept(http.Header{"Accept": append([]string{}, lines...)}, "Accept") })
+		vals := make([]string, len(specs))
+		qs := make([]float64, len(specs))
+		for i, s := range specs {
+			vals[i], qs[i] = s.Value, s.Q
+		}
+		if md, _ := accept.CheckParse(vals, qs, p.Ranges); md != "" {
+			ok = false
+			m.Class("negotiation-not-judged:ParseAccept-fails-C07-oracle")
+		}
+	} else if !ok {
+		m.Class("negotiation-not-judged:" + p.Why)
+	}
+	if ok {
+		neg = accept.Select(p.Present, p.Ranges, offers, true)
+	}
+	return neg, ok
+}
+
+func dedupStrings(l []string) []string {
+	seen := map[string]bool{}
+	var out []string
+	for _, e := range l {
+		if !seen[e] {
+			seen[e] = true
+			out = append(out, e)
+		}
+	}
+	return out
+}
+
+const (
+	entryNoRoute = "respond-without-route"
+	entryNoOp    = "respond-route-without-operation"
+	entryNF      = "not-found"
+)
+
+// runDirect judges a response rendered outside a matched operation: Context.Respond without a route (or with a
+// hand-made route that has no Operation), the way middleware that is not an operation of the description borrows
+// the context's negotiation and producers, and Context.NotFound. What the statement says about such a response:
+// Content-Type = the type negotiated over the produces handed in (API default last), body = what the producer
+// registered for that type (parameters ignored) writes for the value, nothing for HEAD, errors to the API's error
+// responder (JSON content type if nothing was negotiated). There is no declared status: the status is not judged.
+func runDirect(m *mon.M, c *Case, b *built, s *served) (violated bool) {
+	d := b.desc
+	rq := &c.Req
+	lines := rq.lines()
+	m.Eval(1)
+	*b.obs = observation{}
+	b.cur = rq
+	if rq.SwapResponder {
+		b.swapResponder()
+	}
+	method := rq.Method
+	if method == "" {
+		method = http.MethodGet
+	}
+	req := httptest.NewRequest(method, "/outside-the-description", nil)
+	if lines != nil {
+		req.Header["Accept"] = append([]string{}, lines...)
+	}
+	declared := dedupStrings(rq.Produces)
+	kind := rq.Outcome.Kind
+	if rq.Entry == entryNF {
+		kind = "not-found"
+		declared = nil
+		if d.DefaultProduces != "" {
+			declared = []string{d.DefaultProduces} // NotFound offers the API default only
+		}
+	}
+	handed := append([]string(nil), rq.Produces...) // the library gets its own copy
+	var route *middleware.MatchedRoute
+	if rq.Entry == entryNoOp {
+		route = &middleware.MatchedRoute{}
+		route.Produces = append([]string(nil), rq.Produces...)
+	}
+	mctx := s.contextFor(rq.Flow)
+	var data interface{}
+	if rq.Entry != entryNF {
+		res, err := b.handle() // what the middleware wants rendered
+		data = res
+		if err != nil {
+			data = err
+		}
+	}
+	rec := httptest.NewRecorder()
+	pv, st := mon.Catch(func() {
+		if rq.Entry == entryNF {
+			mctx.NotFound(rec, req)
+			return
+		}
+		mctx.Respond(rec, req, handed, route, data)
+	})
+	obs := *b.obs
+	res := rec.Result()
+	body := rec.Body.String()
+	status := rec.Code
+	ct := res.Header.Get("Content-Type")
+	oc := outcomeClass(kind)
+
+	violate := func(sig, detail string) {
+		violated = true
+		if accept.HasOWSBeforeSemicolon(declared...) && !strings.Contains(sig, "ows-before-semicolon") {
+			sig += "+declared-type-with-ows-before-semicolon"
+		}
+		// the smallest API that registers what the entry needs
+		op := OpDesc{Method: "GET", Produces: declared, Codes: []int{200}}
+		if len(declared) == 0 {
+			op = d.Ops[rq.Op]
+		}
+		dd := &APIDesc{DefaultProduces: d.DefaultProduces, Ops: []OpDesc{op}, BareOnly: d.BareOnly, Unregistered: d.Unregistered}
+		if len(declared) == 0 {
+			dd.Global = d.Global
+		}
+		r2 := *rq
+		r2.Op = 0
+		r2.SwapResponder = rq.SwapResponder || b.respGen > 0
+		m.Violate(sig, detail, &Case{API: dd, Req: r2})
+	}
+
+	offers := accept.StatementOffers(declared, declared, d.DefaultProduces)
+	neg, negOK := negotiate(m, lines, offers)
+	shape := shapeOf(ct)
+	if negOK && !neg.None {
+		shape = shapeOf(neg.Offer)
+	}
+	m.Class("stage:direct:" + rq.Entry)
+	if rq.Flow == flowRoutable {
+		m.Class("flow:direct-on-routable-context")
+	}
+	desc := fmt.Sprintf("%s: %s Accept=%q produces=%q default=%q data=%s", rq.Entry, method, lines, rq.Produces, d.DefaultProduces, kind)
+	isErr := kind == "api-error" || kind == "plain-error" || kind == "composite-error" || kind == "not-found"
+
+	if rq.Entry != entryNF && !sameList(handed, rq.Produces) {
+		violate("caller-produces-modified/"+rq.Entry, fmt.Sprintf("%s: the produces list handed to Respond is %q afterwards", desc, handed))
+	}
+	if pv != nil {
+		cls := "other"
+		if strings.Contains(fmt.Sprint(pv), "can't find a producer") {
+			cls = "no-producer-found"
+		}
+		if !isErr && cls == "no-producer-found" && (!negOK || neg.None || d.unregistered(neg.Offer)) {
+			// nothing acceptable, or nobody registered a producer for the negotiated type: the statement does not say
+			// what a value is rendered with then
+			m.Class("direct:nothing-acceptable-or-no-producer:panic(not judged)")
+			return violated
+		}
+		violate(fmt.Sprintf("panic-%s/%s/%s/%s", cls, rq.Entry, oc, shape), fmt.Sprintf("%s: panic: %v\n%s", desc, pv, st))
+		return violated
+	}
+	m.NT(fmt.Sprintf("direct|%s|%s|%s|%s|%s|%s", rq.Entry, shape, rq.Flavour, kind, method, rq.Flow))
+	m.Class("outcome:direct:" + kind)
+
+	if isErr {
+		switch {
+		case staleResponder(&obs, b.respGen):
+			violate("error-routed-to-a-replaced-error-responder/"+rq.Entry, fmt.Sprintf("%s: api.ServeError was reassigned after the context was built (%d times); the error went to a function that is no longer the API's error responder (status %d)", desc, b.respGen, status))
+		case len(obs.serveErr) != 1:
+			violate("error-not-routed-to-error-responder/"+rq.Entry, fmt.Sprintf("%s: error responder invoked %d times (status %d)", desc, len(obs.serveErr), status))
+		case kind != "not-found" && obs.serveErr[0].err != obs.returnedErr:
+			violate("error-responder-got-different-error/"+rq.Entry, fmt.Sprintf("%s: Respond was given %v, the error responder got %v", desc, obs.returnedErr, obs.serveErr[0].err))
+		case kind == "not-found" && errCode(obs.serveErr[0].err) != http.StatusNotFound:
+			violate("error-responder-got-different-error/"+rq.Entry, fmt.Sprintf("%s: the error responder got %v (code %d), expected a 404", desc, obs.serveErr[0].err, errCode(obs.serveErr[0].err)))
+		case len(obs.produced) != 0:
+			violate("producer-ran-on-error/"+rq.Entry, fmt.Sprintf("%s: producer %q ran although an error was served", desc, obs.produced[0].tag))
+		case negOK:
+			w := neg.Offer
+			if neg.None {
+				w = runtime.JSONMime // nothing was negotiated
+			}
+			if obs.serveErr[0].ctEntry != w {
+				violate("error-content-type/"+rq.Entry, fmt.Sprintf("%s: Content-Type %q when the error responder was invoked, expected %q", desc, obs.serveErr[0].ctEntry, w))
+			}
+		}
+		return violated
+	}
+	if negOK && neg.None {
+		m.Class("direct:nothing-acceptable(not judged)")
+		return violated
+	}
+	m.Class(fmt.Sprintf("direct:status:%d", status))
+
+	switch kind {
+	case "value", "nil":
+		if negOK && ct != neg.Offer {
+			violate("wrong-content-type/"+rq.Entry+"/value", fmt.Sprintf("%s: Content-Type %q, statement negotiates %q", desc, ct, neg.Offer))
+			return violated
+		}
+		if method == http.MethodHead {
+			if len(obs.produced) != 0 || body != "" {
+				violate("body-for-head/"+rq.Entry, fmt.Sprintf("%s: %d producer calls, body %q", desc, len(obs.produced), body))
+			}
+			m.Class("no-body:head:direct")
+			return violated
+		}
+		if d.unregistered(ct) {
+			m.Class("direct:no-producer-registered(not judged)")
+			return violated
+		}
+		wantTag := strings.ToLower(accept.NormOffer(ct))
+		shape = shapeOf(ct)
+		switch {
+		case len(obs.produced) == 0:
+			violate("wrong-producer/"+rq.Entry+"/value/"+shape, fmt.Sprintf("%s: Content-Type %q but no registered (tagged) producer ran; body %q", desc, ct, clip(body)))
+		case len(obs.produced) != 1:
+			violate("producer-ran-not-once/"+rq.Entry+"/value", fmt.Sprintf("%s: %d producer calls", desc, len(obs.produced)))
+		case obs.produced[0].tag != wantTag:
+			violate("wrong-producer/"+rq.Entry+"/value/"+shape, fmt.Sprintf("%s: Content-Type %q but the body was written by the producer registered for %q; body %q", desc, ct, obs.produced[0].tag, clip(body)))
+		case obs.produced[0].v != obs.returned || obs.produced[0].rendered != wantRendered(&rq.Outcome):
+			violate("producer-got-different-value/"+rq.Entry+"/value", fmt.Sprintf("%s: Respond was given %s, the producer got %s", desc, wantRendered(&rq.Outcome), obs.produced[0].rendered))
+		case body != "["+wantTag+"]"+wantRendered(&rq.Outcome):
+			violate("body-mismatch/"+rq.Entry+"/value", fmt.Sprintf("%s: body %q, the producer wrote %q", desc, clip(body), "["+wantTag+"]"+wantRendered(&rq.Outcome)))
+		}
+	case "responder":
+		switch {
+		case obs.respCalls != 1:
+			violate("responder-invoked-not-once/"+rq.Entry, fmt.Sprintf("%s: Responder invoked %d times", desc, obs.respCalls))
+		case negOK && obs.respCT != neg.Offer:
+			violate("wrong-content-type/"+rq.Entry+"/custom-responder", fmt.Sprintf("%s: Content-Type %q when the Responder was invoked, statement negotiates %q", desc, obs.respCT, neg.Offer))
+		case d.unregistered(obs.respCT):
+			m.Class("direct:no-producer-registered(not judged)")
+		default:
+			wantTag := strings.ToLower(accept.NormOffer(obs.respCT))
+			if tp, ok := obs.respProd.(*tagProducer); !ok || tp.tag != wantTag {
+				violate("wrong-producer/"+rq.Entry+"/custom-responder/"+shapeOf(obs.respCT), fmt.Sprintf("%s: Content-Type %q but the Responder was handed %T (%v), not the producer registered for that type", desc, obs.respCT, obs.respProd, obs.respProd))
+			}
+		}
+	case "lib-error":
+		wantStatus := rq.Outcome.Code
+		if wantStatus <= 0 {
+			wantStatus = http.StatusInternalServerError
+		}
+		wantTag := strings.ToLower(accept.NormOffer(ct))
+		switch {
+		case status != wantStatus:
+			violate("wrong-status/"+rq.Entry+"/library-responder", fmt.Sprintf("%s: middleware.Error(%d, …) answered %d", desc, rq.Outcome.Code, status))
+		case negOK && ct != neg.Offer:
+			violate("wrong-content-type/"+rq.Entry+"/library-responder", fmt.Sprintf("%s: Content-Type %q, statement negotiates %q", desc, ct, neg.Offer))
+		case d.unregistered(ct):
+			m.Class("direct:no-producer-registered(not judged)")
+		case len(obs.produced) != 1 || obs.produced[0].tag != wantTag:
+			violate("wrong-producer/"+rq.Entry+"/library-responder/"+shapeOf(ct), fmt.Sprintf("%s: Content-Type %q, producer calls %d (first: %v)", desc, ct, len(obs.produced), obs.produced))
+		case obs.produced[0].v != interface{}(rq.Outcome.Data):
+			violate("producer-got-different-value/"+rq.Entry+"/library-responder", fmt.Sprintf("%s: data %q, producer got %v", desc, rq.Outcome.Data, obs.produced[0].v))
+		case method != http.MethodHead && body != "["+wantTag+"]"+render(rq.Outcome.Data):
+			violate("body-mismatch/"+rq.Entry+"/library-responder", fmt.Sprintf("%s: body %q", desc, clip(body)))
+		}
+	}
+	return violated
+}
+
+// staleResponder: an error responder that the application has replaced since was invoked.
+func staleResponder(obs *observation, current int) bool {
+	for _, ec := range obs.serveErr {
+		if ec.gen != current {
+			return true
+		}
+	}
+	return false
+}
+
+// judgeNoProducer judges a response whose negotiated type has no registered producer: which producer writes
+// the body (the library falls back to the API default's) or whether the request fails is not the statement's
+// business; what remains is that nothing is written twice and that a producer that ran got the handler's value
+// and its output is the body.
+func judgeNoProducer(m *mon.M, obs *observation, rq *ReqDesc, d *APIDesc, body, ctx string, violate func(sig, detail string)) {
+	const feat = "/no-producer-registered-for-the-negotiated-type"
+	who := "nobody"
+	if len(obs.produced) > 0 {
+		who = "another-producer"
+		if obs.produced[0].tag == strings.ToLower(accept.NormOffer(d.DefaultProduces)) {
+			who = "default-producer"
+		}
+	}
+	m.Class("no-producer-registered:" + outcomeClass(rq.Outcome.Kind) + ":written-by-" + who)
+	switch rq.Outcome.Kind {
+	case "value", "nil":
+		switch {
+		case len(obs.produced) > 1:
+			violate("producer-ran-not-once/value"+feat, fmt.Sprintf("%s: %d producer calls", ctx, len(obs.produced)))
+		case len(obs.produced) == 1 && (obs.produced[0].v != obs.returned || obs.produced[0].rendered != wantRendered(&rq.Outcome)):
+			violate("producer-got-different-value/value"+feat, fmt.Sprintf("%s: handler returned %s, producer got %s", ctx, wantRendered(&rq.Outcome), obs.produced[0].rendered))
+		case len(obs.produced) == 1 && body != "["+obs.produced[0].tag+"]"+wantRendered(&rq.Outcome):
+			violate("body-mismatch/value"+feat, fmt.Sprintf("%s: body %q, the producer that ran (%s) wrote %q", ctx, clip(body), obs.produced[0].tag, "["+obs.produced[0].tag+"]"+wantRendered(&rq.Outcome)))
+		}
+	case "responder", "responder-error":
+		if obs.respCalls > 1 {
+			violate("responder-invoked-not-once"+feat, fmt.Sprintf("%s: Responder invoked %d times", ctx, obs.respCalls))
+		}
+	case "lib-error", "not-implemented":
+		if len(obs.produced) > 1 {
+			violate("producer-ran-not-once/library-responder"+feat, fmt.Sprintf("%s: %d producer calls", ctx, len(obs.produced)))
+		}
+	}
 }
 
 // pseudo codes for checkErrorRouted
@@ -1422,6 +1919,10 @@ func genAPI(r *rand.Rand) *APIDesc {
 	default:
 		d.DefaultProduces = ""
 	}
+	if d.DefaultProduces != "" && r.Intn(10) == 0 {
+		// an API default written with parameters
+		d.DefaultProduces += paramSuffix[r.Intn(len(paramSuffix))]
+	}
 	list := func() []string {
 		n := 1 + r.Intn(4)
 		perm := r.Perm(len(accept.Types))
@@ -1439,7 +1940,7 @@ func genAPI(r *rand.Rand) *APIDesc {
 		if d.DefaultProduces != "" && r.Intn(3) == 0 {
 			present := false
 			for _, t := range out {
-				if accept.NormOffer(t) == d.DefaultProduces {
+				if accept.NormOffer(t) == accept.NormOffer(d.DefaultProduces) {
 					present = true
 				}
 			}
@@ -1481,6 +1982,7 @@ func genAPI(r *rand.Rand) *APIDesc {
 		}
 		op.Secured = r.Intn(4) == 0
 		op.Alt = op.Secured && r.Intn(2) == 0
+		op.KeyFirst = op.Alt && r.Intn(2) == 0
 		op.ReqParam = r.Intn(5) == 0
 		if (op.Method == "POST" || op.Method == "PUT" || op.Method == "PATCH") && r.Intn(2) == 0 {
 			op.BodyParam = true
@@ -1495,7 +1997,29 @@ func genAPI(r *rand.Rand) *APIDesc {
 		s := realms[r.Intn(len(realms))]
 		d.Realm = &s
 	}
+	if r.Intn(8) == 0 {
+		// one declared type (never the API default) that nobody registers a producer for
+		var cands []string
+		for _, t := range d.declaredTypes() {
+			if n := strings.ToLower(accept.NormOffer(t)); n != strings.ToLower(accept.NormOffer(d.DefaultProduces)) {
+				cands = append(cands, n)
+			}
+		}
+		if len(cands) > 0 {
+			d.Unregistered = []string{cands[r.Intn(len(cands))]}
+		}
+	}
 	return d
+}
+
+// declaredTypes lists the produces entries of the description (spec level and operations), as written, in order
+// of first appearance.
+func (d *APIDesc) declaredTypes() []string {
+	l := append([]string(nil), d.Global...)
+	for _, op := range d.Ops {
+		l = append(l, op.Produces...)
+	}
+	return dedupStrings(l)
 }
 
 var outcomeKinds = []string{"value", "value", "value", "value", "value-producer-fails", "nil", "responder", "responder", "responder-error", "lib-error", "lib-error", "not-implemented", "api-error", "plain-error", "composite-error"}
@@ -1524,14 +2048,47 @@ func genOutcome(r *rand.Rand, i int) Outcome {
 	return o
 }
 
+// TRIAGE-PENDING: Context.Respond(rw, r, produces, nil, aResponder) dereferences the nil route on the unchanged tree
+// (middleware/context.go:575, `route.Producers`; signatures panic-other/respond-without-route/custom-responder/* and
+// .../library-responder/*, witness /tmp/alarms3/C08-responder-without-route.json, proposed repair
+// /tmp/alarms3/C08-responder-without-route.diff). Until the lead has decided, exactly that shape (a Responder -
+// custom, or the library's middleware.Error - handed to a route-less Respond) is not generated; runDirect judges it
+// (and a replay of the witness fires) as soon as this is set.
+var responderWithoutRoute = false
+
+var directOutcomes = []string{"value", "value", "value", "value", "nil", "api-error", "plain-error", "composite-error", "responder", "lib-error"}
+
 func genReq(r *rand.Rand, d *APIDesc, i int) ReqDesc {
 	rq := ReqDesc{Op: r.Intn(len(d.Ops))}
 	op := d.Ops[rq.Op]
-	switch r.Intn(40) {
-	case 0:
-		rq.Route = "unknown-path"
-	case 1:
-		rq.Route = "wrong-method"
+	direct := r.Intn(12) == 0
+	if direct {
+		// a response rendered outside a matched operation
+		rq.Entry = []string{entryNoRoute, entryNoRoute, entryNoRoute, entryNoRoute, entryNoRoute, entryNoRoute, entryNoOp, entryNoOp, entryNF, entryNF}[r.Intn(10)]
+		rq.Method = []string{"GET", "GET", "GET", "POST", "DELETE", "HEAD"}[r.Intn(6)]
+		if rq.Entry != entryNF {
+			// 1-3 produces entries among those the description declares (each media type in one spelling), the API
+			// default among them or not
+			pool := d.declaredTypes()
+			if d.DefaultProduces != "" && r.Intn(3) == 0 {
+				pool = append(pool, d.DefaultProduces)
+			}
+			seen := map[string]bool{}
+			n := 1 + r.Intn(3)
+			for _, pi := range r.Perm(len(pool)) {
+				if t := pool[pi]; !seen[accept.NormOffer(t)] && len(rq.Produces) < n {
+					seen[accept.NormOffer(t)] = true
+					rq.Produces = append(rq.Produces, t)
+				}
+			}
+		}
+	} else {
+		switch r.Intn(40) {
+		case 0:
+			rq.Route = "unknown-path"
+		case 1:
+			rq.Route = "wrong-method"
+		}
 	}
 	types := accept.Types
 	if r.Intn(3) > 0 {
@@ -1539,14 +2096,19 @@ func genReq(r *rand.Rand, d *APIDesc, i int) ReqDesc {
 		if len(src) == 0 {
 			src = d.Global
 		}
+		if direct {
+			src = rq.Produces
+		}
 		var t []string
 		for _, s := range src {
 			t = append(t, accept.NormOffer(s))
 		}
 		if d.DefaultProduces != "" {
-			t = append(t, d.DefaultProduces)
+			t = append(t, accept.NormOffer(d.DefaultProduces))
 		}
-		types = t
+		if len(t) > 0 {
+			types = t
+		}
 	}
 	switch k := r.Intn(20); {
 	case k < 2:
@@ -1571,8 +2133,31 @@ func genReq(r *rand.Rand, d *APIDesc, i int) ReqDesc {
 		}
 	}
 	rq.Outcome = genOutcome(r, i)
-	if r.Intn(3) == 0 {
+	switch k := r.Intn(12); {
+	case k < 2:
 		rq.Flow = "generated"
+	case k < 5:
+		rq.Flow = flowRoutable
+	}
+	rq.SwapResponder = r.Intn(25) == 0
+	if direct {
+		// no operation: nothing of what follows applies
+		rq.Auth = ""
+		rq.Refuse, rq.AuthCtx = "", ""
+		for {
+			rq.Outcome = genOutcome(r, i)
+			ok := false
+			for _, k := range directOutcomes {
+				ok = ok || k == rq.Outcome.Kind
+			}
+			if isResp := rq.Outcome.Kind == "responder" || rq.Outcome.Kind == "lib-error"; ok && (!isResp || (rq.Entry == entryNoRoute && responderWithoutRoute)) {
+				break
+			}
+		}
+		if rq.Flow == "generated" {
+			rq.Flow = "" // the flow of a direct entry only selects the context
+		}
+		return rq
 	}
 	if op.ReqParam && r.Intn(4) == 0 {
 		rq.OmitParam = true
@@ -1600,10 +2185,9 @@ func run(m *mon.M) {
 			continue
 		}
 		m.Class("config:default=" + map[bool]string{true: "none", false: "set"}[d.DefaultProduces == ""])
-		var hs []http.Handler
+		var hs []*served
 		for k := 0; k < 3; k++ {
-			h, _ := b.handler()
-			hs = append(hs, h)
+			hs = append(hs, b.handler())
 		}
 		var recent []ReqDesc
 		for q := 0; q < nreq; q++ {
@@ -1637,11 +2221,11 @@ func runReplayCase(m *mon.M, c *Case) {
 		m.Class("config-rejected")
 		return
 	}
-	var h http.Handler
+	var h *served
 	for i := 0; i < 400; i++ {
-		var ctx *middleware.Context
-		h, ctx = b.handler()
-		if len(c.WantOrder) == 0 || sameList(producesOf(ctx, c.API.Ops[c.Req.Op].Method, c.Req.Op), c.WantOrder) {
+		b.rh, b.rctx = nil, nil
+		h = b.handler()
+		if len(c.WantOrder) == 0 || sameList(producesOf(h.contextFor(c.Req.Flow), c.API.Ops[c.Req.Op].Method, c.Req.Op), c.WantOrder) {
 			break
 		}
 	}
